@@ -902,7 +902,7 @@ pub fn run(ctx: &Ctx, c06: bool) -> i32 {
               let lon = 3.0 * PI / 2.0 + 0.011 + kl as f64 * (HALF_PI / 12.0);
               for dd in [1u8, 2] {
                 let d = k as u8 + dd;
-                if d > if quick { 6 } else { 8 } {
+                if d > 6 {
                   continue;
                 }
                 let q = ConeQ { variant: 0, depth: d, delta: 0, lon: lon.rem_euclid(TWO_PI), lat, r };
